@@ -116,3 +116,26 @@ def align(**_):
     if not line.endswith(f" align:{want}"):
       bad.append(f"textAlign {ta} direction {di}: {line!r}, required align:{want}")
   return bool(bad), "; ".join(bad) if bad else "align follows textAlign x direction for all six combinations"
+
+
+def shape(fmt="srt", shape="styled", mask=(), model=None, obligation=None, **_):
+  """proof tier `<fmt>.writer.grammar+tags[shape:mask]`: the counter-model's timing values on the shape, natively"""
+  import logging
+  from fractions import Fraction
+  import rtc.cues_common as P
+  from rtc.common import Recorder
+  from rtc import docgen
+  from specs.isd_shapes import SHAPES
+  logging.disable(logging.CRITICAL)
+  model = model or {}
+  vals = {k: Fraction(str(model.get(k, 0) or 0)) for k in mask}
+  doc = SHAPES[shape](lambda n: vals.get(n))
+  rec = Recorder("C07", "", {})
+  info = (0, 0, 0, "shape:" + shape)
+  fmt = "vtt:line:align" if fmt == "vtt:line" else fmt
+  P.check_doc(rec, "C07", doc, info, [fmt])
+  text, err = P.run_writer(doc, fmt)
+  lines = [f"shape {shape} with {dict((k, str(v)) for k, v in vals.items())}: {docgen.describe(doc, 900)}", f"writer raised {err!r}" if err is not None else "writer output:\n" + text]
+  if rec.failures or err is not None:
+    return True, "\n".join(lines + [f"FAILED [{k}] {v['summary'][:400]}" for k, v in rec.failures.items()])
+  return False, "\n".join(lines + ["all contracts of C07 hold on this document"])
